@@ -236,6 +236,37 @@ def searchBackoff : Option Bad :=
     if o.val? = some want then none
     else some { fn := "backoff.next", input := s!"minDelay={b.minDelay} maxDelay={b.maxDelay} attempt={a} jitter={jn}/{jd}", program := showOut o, model := s!"{repr want}", panics := o.isPanic }
 
+/-! ### nextWriter, closeInFlight, closeChans -/
+
+def searchNextWriter : Option Bad :=
+  firstSome ([0, 1, 2].flatMap fun cur => [0, 1, 2].flatMap fun ep => [true, false].flatMap fun o => [true, false].map fun c => (cur, ep, o, c))
+    fun (cur, ep, o, c) =>
+      let out := run (writerExt cur o c) prog_wsConn_nextWriter (writerEnv ep)
+      let want : List Val :=
+        if cur ≠ ep then [.cons (.str "cb") (.tag "discard" .nil)]
+        else if o then [.str "conn.NextWriter"]
+        else [.str "conn.NextWriter", .cons (.str "cb") (.tag "wcl" .nil), .str "wcl.Close"]
+      if out.fx = some want then none
+      else some { fn := "wsConn.nextWriter", input := s!"current epoch={cur} epoch of the request={ep} NextWriter fails={o} Close fails={c}",
+                  program := showOut out, model := s!"uses of the connection and of the callback: {repr want}", panics := out.isPanic }
+
+def searchSweep : Option Bad :=
+  let ess : List (List (NId × Bool)) := [[], [(.num "1", true)], [(.num "1", false)], [(.num "1", true), (.str "a", false), (.num "2", true)]]
+  firstSome (ess.flatMap fun es => handlingGrid.map fun hs => (es, hs)) fun (es, hs) =>
+    let out := run sweepExt prog_wsConn_closeInFlight (sweepEnv es hs)
+    let want := ((es.filter (·.2)).map fun e => deliverFx e.1) ++ hs.map encCancel
+    if out.fx = some want ∧ (out.env?.bind (·.get "c.inflight")) = some .nil ∧ (out.env?.bind (·.get "c.handling")) = some .nil then none
+    else some { fn := "wsConn.closeInFlight", input := s!"inflight (id, mailbox has room)={repr es} handling={repr hs}",
+                program := showOut out, model := s!"effects {repr want}; both tables empty afterwards", panics := out.isPanic }
+
+def searchCloseChans : Option Bad :=
+  firstSome chansGrid fun cs =>
+    let out := run chansExt prog_wsConn_closeChans [("c.chanHandlers", encChans cs)]
+    let want := cs.map fun c => encCb c .nil false
+    if out.fx = some want ∧ (out.env?.bind (·.get "c.chanHandlers")) = some (encChans []) then none
+    else some { fn := "wsConn.closeChans", input := s!"chanHandlers={repr cs}", program := showOut out,
+                model := s!"sink calls {repr want}; table empty afterwards", panics := out.isPanic }
+
 /-- Search by the name of the Lean module whose theorems no longer check (the last component of `JrpcProofs.Trans.X`). -/
 def byModule (m : String) : Option (List (Option Bad)) :=
   match m with
@@ -252,9 +283,12 @@ def byModule (m : String) : Option (List (Option Bad)) :=
   | "WRC" => some [searchWRC]
   | "Wire" => some [searchMarshal]
   | "Backoff" => some [searchBackoff]
+  | "NextWriter" => some [searchNextWriter]
+  | "Sweep" => some [searchSweep]
+  | "CloseChans" => some [searchCloseChans]
   | _ => none
 
 def allModules : List String :=
-  ["Auth", "AuthHTTP", "NormalizeID", "CancelCtx", "ChanMessage", "ChanClose", "HandleFrame", "Naming", "Outs", "BatchWriter", "WRC", "Wire", "Backoff"]
+  ["Auth", "AuthHTTP", "NormalizeID", "CancelCtx", "ChanMessage", "ChanClose", "HandleFrame", "Naming", "Outs", "BatchWriter", "WRC", "Wire", "Backoff", "NextWriter", "Sweep", "CloseChans"]
 
 end Jrpc.TransSearch
